@@ -66,7 +66,7 @@ Section E.
     pose proof (run_task_spec body c E dyn desel w t f) as SP.
     remember (run_task body c E dyn desel w t f) as r eqn:Er.
     destruct SP; simpl; try reflexivity.
-    - apply apply_commit_effects.
+    - destruct (dry_run c); [reflexivity|apply apply_commit_effects].
     - rewrite apply_write_effects. match goal with H : run_body _ _ _ _ = _ |- _ => rewrite H end. reflexivity.
     - rewrite <- apply_effects_app, apply_write_effects.
       match goal with H : run_body _ _ _ _ = _ |- _ => rewrite H end. simpl. apply apply_commit_effects.
@@ -125,7 +125,9 @@ Section E.
     - eapply (G [] []); eauto.
     - eapply (G [] []); eauto.
     - eapply (G [] []); eauto.
-    - eapply (G []); [reflexivity | apply commit_effects_all_commits | exact H].
+    - destruct (dry_run c).
+      + eapply (G [] []); eauto.
+      + eapply (G []); [reflexivity | apply commit_effects_all_commits | exact H].
     - eapply (G [] []); eauto.
   Qed.
 End E.
